@@ -1,13 +1,15 @@
 #!/bin/bash
 # tools/seedmatrix.sh - re-confirm every seed under /verif/seeded against the
-# current /repo and re-run the checks that are expected to catch it.
-# Output: one line per seed; details land in seeded/<name>/meta.json.
+# current /repo and re-run the checks recorded in its meta.json (the ones that
+# were run when it was first evaluated). One line per seed; details land in
+# seeded/<name>/meta.json. VERIF_WORK keeps the scratch output away from .work.
 cd /verif
-declare -A EXTRA=( [C07-v1]="C11 C03" [C03-v1]="C03 C11" [C03-v2]="C03 C13" [C11-v1]="C11 C03" [C17-v1]="C17 C13" )
+export VERIF_WORK=${VERIF_WORK:-/verif/.work2}
 for d in seeded/*/; do
-  name=$(basename "$d"); id=${name%%-*}
-  checks=${EXTRA[$name]:-$id}
-  race=""; [ "$id" = "C05" ] && race=1
+  name=$(basename "$d")
+  [ -n "$1" ] && [[ "$name" != $1 ]] && continue
+  checks=$(python3 -c "import json,sys; m=json.load(open('$d/meta.json')); print(' '.join(m.get('checks',{}).keys()) or m.get('property',''))")
+  race=""; [[ "$checks" == *C05* ]] && race=1
   DEMO_RACE=$race python3 tools/evalseed.py "/verif/seeded/$name" "$name" $checks 2>&1 | head -1
 done
 python3 tools/seedmeta.py >/dev/null
